@@ -13,6 +13,8 @@ var EthKeysHex = []string{
 	"74b54a3610ec064c7101791888709bca957045e4af48cb74b68c08f13ddac446",
 	"304129df6bdf36034bccbea506dd5d8dd0ceda83c88869f21ef7b0d2fead1150",
 	"37a59d9ea6b37ae4d5b27dec6c32e16875de31c52eaf8252e1cd278745fd2a7a",
+	"09829b1c410382f777961f1accdb9f18fab5e3f3be6407afd4963a1b57185d47",
+	"94f12e08d44a637c4a255871d54f4563c9daaa6e0c5bf0d0d689334fea359842",
 }
 
 var EthAddrs = []string{
@@ -20,6 +22,8 @@ var EthAddrs = []string{
 	"0x07A6b95457d3115346A512b7458D6C43dBB7B39B",
 	"0x507f2C23277B725D3A63b52c958f55A500A3397A",
 	"0x23A7289eC2E06c8AD1fFFBe88718644fF6CB94a0",
+	"0xc9E69270D0CEDA79379eBF46432D19B26bCD4b12",
+	"0x7999aa37a5F49A0dd8Bc557E46285EaB08877119",
 }
 
 // EthTx builds a remote-chain transaction carrying the given call data; the
